@@ -139,3 +139,27 @@ func (v VerifChannel) ResetReceiveSequence() { v.S.rcvSequenceNumberSet = false 
 func (v VerifChannel) ReceiveSequence() (uint32, bool) {
 	return v.S.rcvSequenceNumber, v.S.rcvSequenceNumberSet
 }
+
+// VerifInstanceInfo describes one entry of the instance table.
+type VerifInstanceInfo struct {
+	Obj       any // the instance object (comparable)
+	ChannelID uint32
+	TokenID   uint32
+	CreatedAt time.Time
+	Lifetime  time.Duration
+	Active    bool
+}
+
+// InstanceInfos returns the entries of the instance table per table key, oldest first.
+func (v VerifChannel) InstanceInfos() map[uint32][]VerifInstanceInfo {
+	v.S.instancesMu.Lock()
+	defer v.S.instancesMu.Unlock()
+	m := map[uint32][]VerifInstanceInfo{}
+	for k, l := range v.S.instances {
+		for _, i := range l {
+			m[k] = append(m[k], VerifInstanceInfo{Obj: i, ChannelID: i.secureChannelID, TokenID: i.securityTokenID,
+				CreatedAt: i.createdAt, Lifetime: i.revisedLifetime, Active: i == v.S.activeInstance})
+		}
+	}
+	return m
+}
